@@ -1,3 +1,944 @@
-import Kurbo.Shapes
+import Proofs.KDefs
+import Proofs.Lemmas.C11
+import Proofs.Lemmas.C11RR
+import Proofs.Lemmas.C15Quad
+import Proofs.C12
+import Proofs.Lemmas.C11Real
+/-! C11 – closed-form shape queries agree with the shape's own outline.
+
+    "For every closed shape, the closed-form area, perimeter, winding number for points off the boundary, and bounding
+    box agree with those computed from the shape's Bezier outline; the bounding box is tight for rectangles, rounded
+    rectangles, circles, ellipses, triangles and lines.  Rectangles resolve boundary points with the same half-open
+    rule as paths, so a plane tiled by rectangles assigns every point to exactly one tile."
+
+    The theorems are about the model definitions exactly as they are: `Rect.winding/area/perimeter/bounding_box`
+    (`Kurbo/Kernel.lean`), the shape functions of `Kurbo/Shapes.lean`, and the path queries `pathWinding`
+    (`Kurbo/Curve.lean`), `pathArea` (`Kurbo/Path.lean`), `pathBoundingBox`.  `K` is an arbitrary lawful scalar (ℚ, ℝ, …)
+    unless a section says ℝ.
+
+    PROVED
+    1. Rect (outline = exact polygon, so everything is compared with the path machinery itself):
+       * `rect_winding_eq_path_winding`: `pathWinding r.path_elements p = some (r.winding p)` for EVERY `p`, boundary
+         points included, every corner order (also reversed and zero-extent rectangles, where `ClosePath` emits no edge);
+         `rect_winding_ne_zero_iff` (non-zero exactly where `abs().contains(p)`, sign by orientation),
+         `rect_winding_eq_contains`.
+       * tiling: `interval_tiling` (a monotone sequence cuts `[a 0, a n)` into half-open intervals, each point in exactly
+         one, none outside), `rect_tiling_horizontal`, `rect_tiling_vertical` (two tiles sharing an edge: the winding
+         numbers add up to the big rectangle's, never both non-zero; the shared edge goes to one tile),
+         `rect_grid_tiling` (grid `ax 0 ≤ … ≤ ax m`, `ay 0 ≤ … ≤ ay n`: a point counted by the big rectangle is counted
+         by exactly one tile `(i,j)`, a point not counted by it by none).
+       * `rect_area_eq_path_area`, `rect_bbox_eq_path_bbox` (`bounding_box = abs` = the `pathBoundingBox` of the
+         outline), `rect_bbox_tight`, `rect_perimeter_eq` (`2(|w|+|h|)` = sum of the four axis-parallel side lengths),
+         `rect_perimeter_eq_outline_arclen` (= sum of the model's `Line.arclen` of the four outline edges, under the
+         hypothesis `HypotLaw K`: `Scalar.hypot` is the Euclidean norm).  `line_bbox_tight` for a single line.
+    2. Triangle (outline = exact polygon):
+       * `triangle_winding_eq_path_winding`: for `p` on none of the three closed edges (`¬ OnSeg`), rows through vertices
+         included, both orientations: `pathWinding t.path_elements p = some (t.winding p)` – under the hypothesis that
+         the three cross products whose `signum` the code takes do not ALL vanish; corollary
+         `triangle_winding_eq_path_winding_of_area_ne_zero` (every non-degenerate triangle).  The hypothesis is needed:
+         for the degenerate triangle `(1,1),(2,2),(3,3)` and `p = (0,0)` (on no edge) the closed form returns `1`
+         (`signum 0 = 1` three times) and the outline `0` – `example` at the end.  This is outside the property's
+         quantifier ("both orientations": a zero-area triangle has none) and recorded as design finding (n).
+       * `triangle_winding_sign` (values `−1,0,1`; `+1` only with area `≥ 0`, `−1` only with area `< 0`),
+         `triangle_area_eq_path_area`, `triangle_bbox_eq_path_bbox`, `triangle_bbox_tight`,
+         `triangle_perimeter_eq_outline_arclen` (under `HypotLaw K`).
+    3. RoundedRect (closed form vs the IDEAL shape, not vs the Bézier outline):
+       * `from_rect_normalises` (`rect = abs`, ordered corners, every radius in `[0, min(w,h)/2]`, any input),
+         `roundedRect_winding_iff_ideal`: for ordered corners and admissible radii (`RoundedRect.RadiiOk`)
+         `winding p = 1 ↔ RoundedRect.Ideal p` and `winding ∈ {0,1}`, where `Ideal` (defined in
+         `Proofs/Lemmas/C11RR.lean`) is the closed rectangle minus, per corner, the part of the `r × r` corner square
+         outside the inscribed disc of THAT corner's radius (four different radii allowed; boundary points count);
+         `roundedRect_from_rect_winding_iff_ideal` (everything `from_rect` builds), `roundedRect_inside_iff_ideal` (the
+         quadrant-level statement of the prototype), `roundedRect_ideal_uniform` (sanity of `Ideal`: with one radius
+         it IS the union of the two inner strips and four corner discs).
+       * `roundedRect_bbox` (`= rect.abs`, contains `Ideal`), `roundedRect_bbox_tight` (the four tangent points where
+         the outline's straight pieces start are in `Ideal`, one on each side), `roundedRect_outline_pieces` (centres and
+         radii of `arcs` are the corner discs of `Ideal`; `rectEls` written out), `roundedRect_area_perimeter_eq`
+         (rectangle minus `(1−π/4)r²` resp. `(2−π/2)r` per corner, `π = Scalar.pi` symbolic).
+    4. Circle / Ellipse (closed form vs the ideal set):
+       * `circle_winding_iff` (`= 1 ↔ dist² < r²`, OPEN disc, either sign of `r`), `circle_bbox_tight`,
+         `circle_area_perimeter_eq` (`π r²`, `|2πr|`, `π` symbolic).
+       * `ellipse_winding_iff` (pre-image under `inner.inverse` in the open unit disc), `ellipse_winding_iff_image`
+         (`det ≠ 0`: image of the open unit disc under `inner`), `ellipse_bbox_contains` (Cauchy–Schwarz) and
+         `ellipse_bbox_tight` under `SqrtExact` at the two arguments the function passes to `Scalar.sqrt`,
+         `ellipse_area_eq` (`π·|det|`: the two singular values of `svd` multiply to `|det|`) under the square-root law
+         on all non-negatives; (ℝ, `LawfulReal`) `ellipse_bbox_area_real` without hypotheses.
+    5. CircleSegment:
+       * `cseg_winding_radial` (any lawful `K`, whatever `atan2`/`fmod`/`pi` are: value in `{0,1}`, `1` only strictly
+         between the circles, radii in either order), `cseg_bbox_contains`, `cseg_area_perimeter_eq` (formulas).
+       * (ℝ with `LawfulReal` and the new class `LawfulRealAngle`: `Scalar.pi = π`, `Scalar.fmod a b = a − b·trunc(a/b)`)
+         `cseg_winding_iff_sector`: `winding p = 1 ↔` strictly between the circles ∧ the direction of `p − center` is
+         `start + σθ` for some `θ ∈ [0, |sweep|]`, `σ = signum sweep` – for EVERY start angle and sweep, ranges across
+         `±π` included (the model is the repaired `winding`, design row (e)).
+
+    NOT PROVED
+    * Agreement of the closed forms of Circle, Ellipse, RoundedRect, CircleSegment with their *Bézier outlines*
+      (`pathWinding/pathArea/pathBoundingBox` of `Circle.path_elements` etc., "within tolerance"): needs the
+      approximation-error theorem of C10 for arcs plus an argument that the curved outline's crossing number equals
+      membership in the ideal set; supported by the correspondence runs only.  For these shapes the theorems above
+      compare the closed form with the ideal SET (disc, affine image of the disc, `RoundedRect.Ideal`, annular sector).
+    * That `π r²`, `π|det|`, `rect − Σ(1−π/4)r²`, `½|R²−r²|·sweep` ARE the Lebesgue areas (and the perimeter formulas
+      the lengths) of those ideal sets: the formulas are only written out (`…_area_perimeter_eq`); no measure theory.
+      `Ellipse::perimeter` (Kummer series) is not modelled here and nothing is proved about it.
+    * Triangle: points ON an edge (the closed form uses `signum 0 = 1`, the path the half-open rule – they differ
+      there) and degenerate triangles (counterexample above) are excluded by hypothesis, not covered.
+    * `HypotLaw`, `SqrtExact`, `LawfulReal`, `LawfulRealAngle` are hypotheses/classes about the transcendental `Scalar`
+      fields; they hold for ℝ with Mathlib's functions (`example`s at the end) and `SqrtExact` at the needed arguments
+      also for suitable ℚ inputs; nothing is claimed about `Float` rounding anywhere in this file.
+    * The tiling theorems are for grids (products of two monotone sequences), not for arbitrary rectangle partitions.
+    Helper lemmas: `Proofs/Lemmas/C11.lean` (polygons with 3/4 vertices written out, `Rect.winding` closed form, tiling
+    in one dimension, `c11_offEdge_of_not_onSeg`, `HypotLaw`), `Proofs/Lemmas/C11Tri.lean` (port of the triangle prototype),
+    `Proofs/Lemmas/C11RR.lean` (port of the rounded-rectangle prototype, `RadiiOk`, `Ideal`), `Proofs/Lemmas/C11Real.lean`
+    (`LawfulRealAngle`, the angle reduction `redAngle`). -/
+set_option linter.unusedSectionVars false
+set_option linter.unusedVariables false
+
+/-! ## 1. Rect -/
 namespace Kurbo
+section rect
+variable {K : Type} [Field K] [LinearOrder K] [IsStrictOrderedRing K] [FloorRing K] [Scalar K] [LawfulScalar K]
+
+/-- **the closed form is the path rule**: for EVERY point (boundary points included) and every corner order the
+    winding number computed from the outline `M(x0,y0) L(x1,y0) L(x1,y1) L(x0,y1) Z` is `Rect::winding` -/
+theorem rect_winding_eq_path_winding (r : Rect K) (p : Point K) :
+    pathWinding r.path_elements p = some (r.winding p) := by
+  unfold Rect.path_elements
+  rw [pathWinding_quadrilateral, rect_crossings_eq_winding]
+
+/-- `Rect::winding` is non-zero exactly on the half-open normalised rectangle, i.e. where `abs().contains(p)` holds;
+    its sign is `+1` when the corners are in the same order on both axes, `−1` otherwise -/
+theorem rect_winding_ne_zero_iff (r : Rect K) (p : Point K) :
+    (r.winding p ≠ 0 ↔ r.abs.contains p = true) ∧
+    (r.winding p ≠ 0 → r.winding p = if (r.x0 < r.x1 ↔ r.y0 < r.y1) then 1 else -1) := by
+  constructor
+  · rw [Rect.winding_ne_zero_iff, Rect.contains_iff, Rect.abs_eq]; rfl
+  · intro h
+    have hc := (Rect.winding_ne_zero_iff r p).mp h
+    rw [Rect.winding_eq, if_pos hc]
+    by_cases hx : r.x0 < r.x1 <;> by_cases hy : r.y0 < r.y1 <;> simp [hx, hy]
+
+/-- for a rectangle with ordered corners the winding number is the indicator of `contains` -/
+theorem rect_winding_eq_contains (r : Rect K) (h : r.Nonneg) (p : Point K) :
+    r.winding p = if r.contains p = true then 1 else 0 := by
+  rw [Rect.Nonneg.winding_eq h]
+  exact if_congr (Rect.contains_iff r p).symm rfl rfl
+
+/-! ### tiling -/
+
+/-- one dimension: a monotone sequence `a 0 ≤ a 1 ≤ … ≤ a n` cuts `[a 0, a n)` into the half-open intervals
+    `[a i, a (i+1))`; every point of `[a 0, a n)` lies in exactly one of them (empty intervals, `a i = a (i+1)`,
+    are allowed) and no point outside lies in any -/
+theorem interval_tiling (a : ℕ → K) (ha : Monotone a) (n : ℕ) (x : K) :
+    (a 0 ≤ x ∧ x < a n → ∃! i, i < n ∧ a i ≤ x ∧ x < a (i + 1)) ∧
+    (∀ i, i < n → a i ≤ x ∧ x < a (i + 1) → a 0 ≤ x ∧ x < a n) := by
+  constructor
+  · rintro ⟨h0, h1⟩
+    obtain ⟨i, hi, h2⟩ := tile_exists a n x h0 h1
+    exact ⟨i, ⟨hi, h2⟩, fun j hj => tile_unique a ha x j i hj.2 h2⟩
+  · intro i hi h
+    exact tile_inside a ha n x i hi h
+
+/-- two rectangles side by side, sharing the edge `x = x1`: every point is counted by the big rectangle exactly as
+    often as by the two tiles together, and never by both tiles – so each point of the (half-open) big rectangle
+    is in exactly one tile, the points of the shared edge going to the right-hand tile -/
+theorem rect_tiling_horizontal (x0 x1 x2 y0 y1 : K) (h01 : x0 ≤ x1) (h12 : x1 ≤ x2) (hy : y0 ≤ y1) (p : Point K) :
+    (⟨x0, y0, x1, y1⟩ : Rect K).winding p + (⟨x1, y0, x2, y1⟩ : Rect K).winding p
+      = (⟨x0, y0, x2, y1⟩ : Rect K).winding p ∧
+    ¬ ((⟨x0, y0, x1, y1⟩ : Rect K).winding p ≠ 0 ∧ (⟨x1, y0, x2, y1⟩ : Rect K).winding p ≠ 0) ∧
+    ((⟨x0, y0, x2, y1⟩ : Rect K).winding p ≠ 0 →
+      ((⟨x0, y0, x1, y1⟩ : Rect K).winding p ≠ 0 ∨ (⟨x1, y0, x2, y1⟩ : Rect K).winding p ≠ 0)) := by
+  have nA : (⟨x0, y0, x1, y1⟩ : Rect K).Nonneg := ⟨h01, hy⟩
+  have nB : (⟨x1, y0, x2, y1⟩ : Rect K).Nonneg := ⟨h12, hy⟩
+  have nC : (⟨x0, y0, x2, y1⟩ : Rect K).Nonneg := ⟨le_trans h01 h12, hy⟩
+  rw [nA.winding_eq, nB.winding_eq, nC.winding_eq]
+  simp only
+  by_cases a : x0 ≤ p.x ∧ p.x < x1 ∧ y0 ≤ p.y ∧ p.y < y1 <;>
+    by_cases b : x1 ≤ p.x ∧ p.x < x2 ∧ y0 ≤ p.y ∧ p.y < y1
+  · exact absurd (lt_of_lt_of_le a.2.1 b.1) (lt_irrefl _)
+  · have c : x0 ≤ p.x ∧ p.x < x2 ∧ y0 ≤ p.y ∧ p.y < y1 := ⟨a.1, lt_of_lt_of_le a.2.1 h12, a.2.2⟩
+    simp [a, c]
+  · have c : x0 ≤ p.x ∧ p.x < x2 ∧ y0 ≤ p.y ∧ p.y < y1 := ⟨le_trans h01 b.1, b.2⟩
+    simp [b, c]
+  · have c : ¬ (x0 ≤ p.x ∧ p.x < x2 ∧ y0 ≤ p.y ∧ p.y < y1) := by
+      rintro ⟨c1, c2, c3⟩
+      rcases lt_or_ge p.x x1 with h | h
+      · exact a ⟨c1, h, c3⟩
+      · exact b ⟨h, c2, c3⟩
+    simp [a, b, c]
+
+/-- the same for two rectangles one above the other, sharing the edge `y = y1` -/
+theorem rect_tiling_vertical (x0 x1 y0 y1 y2 : K) (hx : x0 ≤ x1) (h01 : y0 ≤ y1) (h12 : y1 ≤ y2) (p : Point K) :
+    (⟨x0, y0, x1, y1⟩ : Rect K).winding p + (⟨x0, y1, x1, y2⟩ : Rect K).winding p
+      = (⟨x0, y0, x1, y2⟩ : Rect K).winding p ∧
+    ¬ ((⟨x0, y0, x1, y1⟩ : Rect K).winding p ≠ 0 ∧ (⟨x0, y1, x1, y2⟩ : Rect K).winding p ≠ 0) ∧
+    ((⟨x0, y0, x1, y2⟩ : Rect K).winding p ≠ 0 →
+      ((⟨x0, y0, x1, y1⟩ : Rect K).winding p ≠ 0 ∨ (⟨x0, y1, x1, y2⟩ : Rect K).winding p ≠ 0)) := by
+  have nA : (⟨x0, y0, x1, y1⟩ : Rect K).Nonneg := ⟨hx, h01⟩
+  have nB : (⟨x0, y1, x1, y2⟩ : Rect K).Nonneg := ⟨hx, h12⟩
+  have nC : (⟨x0, y0, x1, y2⟩ : Rect K).Nonneg := ⟨hx, le_trans h01 h12⟩
+  rw [nA.winding_eq, nB.winding_eq, nC.winding_eq]
+  simp only
+  by_cases a : x0 ≤ p.x ∧ p.x < x1 ∧ y0 ≤ p.y ∧ p.y < y1 <;>
+    by_cases b : x0 ≤ p.x ∧ p.x < x1 ∧ y1 ≤ p.y ∧ p.y < y2
+  · exact absurd (lt_of_lt_of_le a.2.2.2 b.2.2.1) (lt_irrefl _)
+  · have c : x0 ≤ p.x ∧ p.x < x1 ∧ y0 ≤ p.y ∧ p.y < y2 := ⟨a.1, a.2.1, a.2.2.1, lt_of_lt_of_le a.2.2.2 h12⟩
+    simp [a, c]
+  · have c : x0 ≤ p.x ∧ p.x < x1 ∧ y0 ≤ p.y ∧ p.y < y2 := ⟨b.1, b.2.1, le_trans h01 b.2.2.1, b.2.2.2⟩
+    simp [b, c]
+  · have c : ¬ (x0 ≤ p.x ∧ p.x < x1 ∧ y0 ≤ p.y ∧ p.y < y2) := by
+      rintro ⟨c1, c2, c3, c4⟩
+      rcases lt_or_ge p.y y1 with h | h
+      · exact a ⟨c1, c2, c3, h⟩
+      · exact b ⟨c1, c2, h, c4⟩
+    simp [a, b, c]
+
+/-- **a plane tiled by rectangles assigns every point to exactly one tile**: for grid lines
+    `ax 0 ≤ … ≤ ax m` and `ay 0 ≤ … ≤ ay n` every point that the big rectangle counts (`winding ≠ 0`, i.e. a point of
+    `[ax 0, ax m) × [ay 0, ay n)`) has non-zero winding number in exactly one tile `(i, j)`, and a point the big
+    rectangle does not count is counted by no tile -/
+theorem rect_grid_tiling (ax ay : ℕ → K) (hx : Monotone ax) (hy : Monotone ay) (m n : ℕ) (p : Point K) :
+    ((⟨ax 0, ay 0, ax m, ay n⟩ : Rect K).winding p ≠ 0 →
+      ∃! ij : ℕ × ℕ, ij.1 < m ∧ ij.2 < n ∧
+        (⟨ax ij.1, ay ij.2, ax (ij.1 + 1), ay (ij.2 + 1)⟩ : Rect K).winding p ≠ 0) ∧
+    ((⟨ax 0, ay 0, ax m, ay n⟩ : Rect K).winding p = 0 →
+      ∀ i j, i < m → j < n → (⟨ax i, ay j, ax (i + 1), ay (j + 1)⟩ : Rect K).winding p = 0) := by
+  have nBig : (⟨ax 0, ay 0, ax m, ay n⟩ : Rect K).Nonneg := ⟨hx (Nat.zero_le m), hy (Nat.zero_le n)⟩
+  have nT : ∀ i j, (⟨ax i, ay j, ax (i + 1), ay (j + 1)⟩ : Rect K).Nonneg :=
+    fun i j => ⟨hx (Nat.le_succ i), hy (Nat.le_succ j)⟩
+  constructor
+  · intro h
+    rw [nBig.winding_ne_zero_iff] at h
+    obtain ⟨i, hi, hi2⟩ := tile_exists ax m p.x h.1 h.2.1
+    obtain ⟨j, hj, hj2⟩ := tile_exists ay n p.y h.2.2.1 h.2.2.2
+    refine ⟨(i, j), ⟨hi, hj, ?_⟩, ?_⟩
+    · rw [(nT i j).winding_ne_zero_iff]; exact ⟨hi2.1, hi2.2, hj2.1, hj2.2⟩
+    · rintro ⟨i', j'⟩ ⟨_, _, h'⟩
+      rw [(nT i' j').winding_ne_zero_iff] at h'
+      have e1 := tile_unique ax hx p.x i' i ⟨h'.1, h'.2.1⟩ hi2
+      have e2 := tile_unique ay hy p.y j' j ⟨h'.2.2.1, h'.2.2.2⟩ hj2
+      rw [e1, e2]
+  · intro h i j hi hj
+    by_contra hne0
+    have hne := ((nT i j).winding_ne_zero_iff p).mp hne0
+    apply (nBig.winding_ne_zero_iff p).mpr _ h
+    have h1 := tile_inside ax hx m p.x i hi ⟨hne.1, hne.2.1⟩
+    have h2 := tile_inside ay hy n p.y j hj ⟨hne.2.2.1, hne.2.2.2⟩
+    exact ⟨h1.1, h1.2, h2.1, h2.2⟩
+
+/-! ### area, bounding box, perimeter -/
+
+/-- the signed area of the outline is `Rect::area` (`width·height`, negative when exactly one axis is reversed) -/
+theorem rect_area_eq_path_area (r : Rect K) : pathArea r.path_elements = some r.area := by
+  unfold Rect.path_elements
+  rw [pathArea_quadrilateral, Rect.area_eq]
+  congr 1
+  simp only
+  ring
+
+/-- `Rect::bounding_box` is `abs()`; it is the bounding box the path machinery computes from the outline -/
+theorem rect_bbox_eq_path_bbox (r : Rect K) :
+    r.bounding_box = r.abs ∧ pathBoundingBox r.path_elements = some r.bounding_box := by
+  refine ⟨rfl, ?_⟩
+  unfold Rect.path_elements
+  rw [pathBoundingBox_quadrilateral]
+  show _ = some r.abs
+  rw [Rect.abs_eq]
+  simp only [Option.some.injEq, Rect.mk.injEq]
+  refine ⟨?_, ?_, ?_, ?_⟩ <;> minmax_eq
+
+/-- the box contains the four corners (closed) and is tight: it is non-negative and each of its four sides passes
+    through a corner -/
+theorem rect_bbox_tight (r : Rect K) :
+    r.bounding_box.Nonneg ∧
+    r.bounding_box.ContainsClosed ⟨r.x0, r.y0⟩ ∧ r.bounding_box.ContainsClosed ⟨r.x1, r.y0⟩ ∧
+    r.bounding_box.ContainsClosed ⟨r.x1, r.y1⟩ ∧ r.bounding_box.ContainsClosed ⟨r.x0, r.y1⟩ ∧
+    (r.bounding_box.x0 = r.x0 ∨ r.bounding_box.x0 = r.x1) ∧ (r.bounding_box.x1 = r.x0 ∨ r.bounding_box.x1 = r.x1) ∧
+    (r.bounding_box.y0 = r.y0 ∨ r.bounding_box.y0 = r.y1) ∧ (r.bounding_box.y1 = r.y0 ∨ r.bounding_box.y1 = r.y1) := by
+  have e : r.bounding_box = ⟨min r.x0 r.x1, min r.y0 r.y1, max r.x0 r.x1, max r.y0 r.y1⟩ := Rect.abs_eq r
+  rw [e]
+  unfold Rect.Nonneg Rect.ContainsClosed
+  simp only
+  refine ⟨⟨min_le_max, min_le_max⟩, ⟨min_le_left _ _, le_max_left _ _, min_le_left _ _, le_max_left _ _⟩,
+    ⟨min_le_right _ _, le_max_right _ _, min_le_left _ _, le_max_left _ _⟩,
+    ⟨min_le_right _ _, le_max_right _ _, min_le_right _ _, le_max_right _ _⟩,
+    ⟨min_le_left _ _, le_max_left _ _, min_le_right _ _, le_max_right _ _⟩,
+    min_choice _ _, max_choice _ _, min_choice _ _, max_choice _ _⟩
+
+/-- `Rect::perimeter` is `2(|w| + |h|)`, the sum of the lengths of the four (axis-parallel) sides of the outline in
+    path order; no square root is involved -/
+theorem rect_perimeter_eq (r : Rect K) (acc : K) :
+    r.perimeter acc = 2 * (|r.x1 - r.x0| + |r.y1 - r.y0|) ∧
+    r.perimeter acc = |r.x1 - r.x0| + |r.y1 - r.y0| + |r.x0 - r.x1| + |r.y0 - r.y1| := by
+  have e : r.perimeter acc = 2 * (|r.x1 - r.x0| + |r.y1 - r.y0|) := by
+    simp only [Rect.perimeter, Rect.width, Rect.height, scalar_norm]; push_cast; ring
+  refine ⟨e, ?_⟩
+  rw [e, abs_sub_comm r.x0 r.x1, abs_sub_comm r.y0 r.y1]; ring
+
+/-- with a Euclidean `hypot` the perimeter is the sum of the model's own arc lengths of the four outline segments -/
+theorem rect_perimeter_eq_outline_arclen (hh : HypotLaw K) (r : Rect K) (acc : K) :
+    (Line.mk ⟨r.x0, r.y0⟩ ⟨r.x1, r.y0⟩).arclen acc + (Line.mk ⟨r.x1, r.y0⟩ ⟨r.x1, r.y1⟩).arclen acc
+      + (Line.mk ⟨r.x1, r.y1⟩ ⟨r.x0, r.y1⟩).arclen acc + (Line.mk ⟨r.x0, r.y1⟩ ⟨r.x0, r.y0⟩).arclen acc
+      = r.perimeter acc := by
+  rw [(rect_perimeter_eq r acc).2]
+  simp only [Line.arclen, Vec2.hypot, kdefs, scalar_norm, sub_self, hh.axis_x, hh.axis_y]
+
+/-- a single line `M p0 L p1`: the bounding box the path machinery computes is spanned by the two end points; it
+    contains every point of the segment and each side passes through an end point -/
+theorem line_bbox_tight (l : Line K) :
+    pathBoundingBox l.path_elements
+      = some ⟨min l.p0.x l.p1.x, min l.p0.y l.p1.y, max l.p0.x l.p1.x, max l.p0.y l.p1.y⟩ ∧
+    (∀ t : K, 0 ≤ t → t ≤ 1 →
+      (⟨min l.p0.x l.p1.x, min l.p0.y l.p1.y, max l.p0.x l.p1.x, max l.p0.y l.p1.y⟩ : Rect K).ContainsClosed (l.eval t)) ∧
+    (min l.p0.x l.p1.x = l.p0.x ∨ min l.p0.x l.p1.x = l.p1.x) ∧ (min l.p0.y l.p1.y = l.p0.y ∨ min l.p0.y l.p1.y = l.p1.y) ∧
+    (max l.p0.x l.p1.x = l.p0.x ∨ max l.p0.x l.p1.x = l.p1.x) ∧ (max l.p0.y l.p1.y = l.p0.y ∨ max l.p0.y l.p1.y = l.p1.y) := by
+  refine ⟨pathBoundingBox_line l.p0 l.p1, ?_, min_choice _ _, min_choice _ _, max_choice _ _, max_choice _ _⟩
+  intro t h0 h1
+  have e := line_eval_xy l.p0 l.p1 t
+  simp only [PathSeg.eval] at e
+  unfold Rect.ContainsClosed
+  simp only
+  rw [e.1, e.2]
+  exact ⟨(lerp_between _ _ t h0 h1).1, (lerp_between _ _ t h0 h1).2, (lerp_between _ _ t h0 h1).1,
+    (lerp_between _ _ t h0 h1).2⟩
+
+end rect
+
+/-! ## 2. Triangle -/
+section triangle
+variable {K : Type} [Field K] [LinearOrder K] [IsStrictOrderedRing K] [FloorRing K] [Scalar K] [LawfulScalar K]
+
+/-- **three signs = ray casting.**  For every query point on none of the three closed edges, both orientations, rows
+    through vertices included: the closed form equals the winding number of the outline `a → b → c → a`, PROVIDED the
+    three cross products whose signs `Triangle::winding` takes do not all vanish (they all vanish exactly when the
+    triangle is degenerate and `p` lies on its supporting line – see the counterexample below) -/
+theorem triangle_winding_eq_path_winding (t : Triangle K) (p : Point K)
+    (hab : ¬ OnSeg (.Line ⟨t.a, t.b⟩) p) (hbc : ¬ OnSeg (.Line ⟨t.b, t.c⟩) p) (hca : ¬ OnSeg (.Line ⟨t.c, t.a⟩) p)
+    (hnd : ¬ ((t.b - t.a).cross (p - t.a) = 0 ∧ (t.c - t.b).cross (p - t.b) = 0 ∧ (t.a - t.c).cross (p - t.c) = 0)) :
+    pathWinding t.path_elements p = some (t.winding p) := by
+  unfold Triangle.path_elements
+  rw [pathWinding_tri, Triangle.winding_eq_triW]
+  congr 1
+  unfold kc
+  simp only [vsub_x, vsub_y]
+  refine C11Tri.triangle_winding _ _ _ _ _ _ (c11_offEdge_of_not_onSeg _ _ _ hab) (c11_offEdge_of_not_onSeg _ _ _ hbc)
+    (c11_offEdge_of_not_onSeg _ _ _ hca) ?_
+  intro h
+  apply hnd
+  simp only [kdefs, scalar_norm]
+  obtain ⟨h0, h1, h2⟩ := h
+  refine ⟨?_, ?_, ?_⟩
+  · linear_combination h0
+  · linear_combination h1
+  · linear_combination h2
+
+/-- in particular for every triangle of non-zero area and every point off its boundary -/
+theorem triangle_winding_eq_path_winding_of_area_ne_zero (t : Triangle K) (p : Point K) (ha : t.area ≠ 0)
+    (hab : ¬ OnSeg (.Line ⟨t.a, t.b⟩) p) (hbc : ¬ OnSeg (.Line ⟨t.b, t.c⟩) p) (hca : ¬ OnSeg (.Line ⟨t.c, t.a⟩) p) :
+    pathWinding t.path_elements p = some (t.winding p) := by
+  apply triangle_winding_eq_path_winding t p hab hbc hca
+  intro h
+  apply ha
+  simp only [kdefs, scalar_norm] at h
+  obtain ⟨h0, h1, h2⟩ := h
+  simp only [Triangle.area, kdefs, scalar_norm]
+  push_cast
+  linear_combination (1 / 2 : K) * h0 + (1 / 2 : K) * h1 + (1 / 2 : K) * h2
+
+/-- the closed form takes the values `−1, 0, 1` only, and the sign is that of the signed area when it is not `0`:
+    `+1` needs all three cross products `≥ 0`, `−1` all three `< 0`, and their sum is twice the area -/
+theorem triangle_winding_sign (t : Triangle K) (p : Point K) :
+    (t.winding p = 1 → 0 ≤ t.area) ∧ (t.winding p = -1 → t.area < 0) ∧
+    (t.winding p = 1 ∨ t.winding p = 0 ∨ t.winding p = -1) := by
+  rw [Triangle.winding_eq_triW, C11Tri.triW_eq]
+  have e : t.area = (1 / 2) * (((t.a.x - p.x) * (t.b.y - p.y) - (t.a.y - p.y) * (t.b.x - p.x))
+      + ((t.b.x - p.x) * (t.c.y - p.y) - (t.b.y - p.y) * (t.c.x - p.x))
+      + ((t.c.x - p.x) * (t.a.y - p.y) - (t.c.y - p.y) * (t.a.x - p.x))) := by
+    simp only [Triangle.area, kdefs, scalar_norm]; push_cast; ring
+  rw [e]
+  split_ifs with h1 h2
+  · refine ⟨fun h => absurd h (by decide), fun _ => by linarith [h1.1, h1.2.1, h1.2.2], Or.inr (Or.inr rfl)⟩
+  · refine ⟨fun _ => by linarith [h2.1, h2.2.1, h2.2.2], fun h => absurd h (by decide), Or.inl rfl⟩
+  · exact ⟨fun h => absurd h (by decide), fun h => absurd h (by decide), Or.inr (Or.inl rfl)⟩
+
+/-- the signed area of the outline is `Triangle::area` -/
+theorem triangle_area_eq_path_area (t : Triangle K) : pathArea t.path_elements = some t.area := by
+  unfold Triangle.path_elements
+  rw [pathArea_tri]
+  congr 1
+  simp only [Triangle.area, kdefs, scalar_norm]; push_cast; ring
+
+/-- `Triangle::bounding_box` is the bounding box the path machinery computes from the outline -/
+theorem triangle_bbox_eq_path_bbox (t : Triangle K) :
+    pathBoundingBox t.path_elements = some t.bounding_box := by
+  unfold Triangle.path_elements
+  rw [pathBoundingBox_tri]
+  simp only [Triangle.bounding_box, kdefs, scalar_norm]
+
+/-- it contains the three vertices (closed) and is tight: each side passes through a vertex -/
+theorem triangle_bbox_tight (t : Triangle K) :
+    t.bounding_box.Nonneg ∧
+    t.bounding_box.ContainsClosed t.a ∧ t.bounding_box.ContainsClosed t.b ∧ t.bounding_box.ContainsClosed t.c ∧
+    (t.bounding_box.x0 = t.a.x ∨ t.bounding_box.x0 = t.b.x ∨ t.bounding_box.x0 = t.c.x) ∧
+    (t.bounding_box.y0 = t.a.y ∨ t.bounding_box.y0 = t.b.y ∨ t.bounding_box.y0 = t.c.y) ∧
+    (t.bounding_box.x1 = t.a.x ∨ t.bounding_box.x1 = t.b.x ∨ t.bounding_box.x1 = t.c.x) ∧
+    (t.bounding_box.y1 = t.a.y ∨ t.bounding_box.y1 = t.b.y ∨ t.bounding_box.y1 = t.c.y) := by
+  have e : t.bounding_box = ⟨min t.a.x (min t.b.x t.c.x), min t.a.y (min t.b.y t.c.y),
+      max t.a.x (max t.b.x t.c.x), max t.a.y (max t.b.y t.c.y)⟩ := by
+    simp only [Triangle.bounding_box, kdefs, scalar_norm]
+  rw [e]
+  unfold Rect.Nonneg Rect.ContainsClosed
+  have c3min : ∀ x y z : K, min x (min y z) = x ∨ min x (min y z) = y ∨ min x (min y z) = z := by
+    intro x y z
+    rcases min_choice x (min y z) with h | h
+    · exact Or.inl h
+    · rw [h]; rcases min_choice y z with h' | h'
+      · exact Or.inr (Or.inl h')
+      · exact Or.inr (Or.inr h')
+  have c3max : ∀ x y z : K, max x (max y z) = x ∨ max x (max y z) = y ∨ max x (max y z) = z := by
+    intro x y z
+    rcases max_choice x (max y z) with h | h
+    · exact Or.inl h
+    · rw [h]; rcases max_choice y z with h' | h'
+      · exact Or.inr (Or.inl h')
+      · exact Or.inr (Or.inr h')
+  refine ⟨?_, ?_, ?_, ?_, c3min _ _ _, c3min _ _ _, c3max _ _ _, c3max _ _ _⟩ <;>
+    simp only [min_le_iff, le_max_iff, le_refl, true_or, or_true, and_self]
+
+/-- with a Euclidean `hypot`, `Triangle::perimeter` is the sum of the model's arc lengths of the three outline edges -/
+theorem triangle_perimeter_eq_outline_arclen (hh : HypotLaw K) (t : Triangle K) (acc : K) :
+    (Line.mk t.a t.b).arclen acc + (Line.mk t.b t.c).arclen acc + (Line.mk t.c t.a).arclen acc = t.perimeter := by
+  simp only [Triangle.perimeter, Point.distance, Line.arclen, Vec2.hypot, kdefs, scalar_norm]
+  rw [← hh.neg (t.a.x - t.b.x), ← hh.neg (t.b.x - t.c.x), ← hh.neg (t.c.x - t.a.x)]
+  simp only [neg_sub]
+
+end triangle
+
+/-! ## 3. RoundedRect -/
+section roundedRect
+variable {K : Type} [Field K] [LinearOrder K] [IsStrictOrderedRing K] [FloorRing K] [Scalar K] [LawfulScalar K]
+
+/-- `RoundedRect::from_rect` normalises: the rectangle is `abs()` of the argument (so it has ordered corners) and
+    every radius ends up in `[0, min(width, height)/2]` – also for negative radii and radii beyond half the side -/
+theorem from_rect_normalises (rect : Rect K) (radii : RoundedRectRadii K) :
+    (RoundedRect.from_rect rect radii).rect = rect.abs ∧
+    (RoundedRect.from_rect rect radii).rect.Nonneg ∧
+    (RoundedRect.from_rect rect radii).RadiiOk := by
+  have e : (RoundedRect.from_rect rect radii).rect = rect.abs := rfl
+  refine ⟨e, ?_, ?_⟩
+  · rw [e, Rect.abs_eq]; exact ⟨min_le_max, min_le_max⟩
+  · unfold RoundedRect.RadiiOk
+    rw [e, Rect.abs_eq]
+    simp only [RoundedRect.from_rect, RoundedRectRadii.abs, RoundedRectRadii.clamp, Rect.width, Rect.height,
+      Rect.abs_eq, scalar_norm]
+    push_cast
+    have hm : 0 ≤ min (max rect.x0 rect.x1 - min rect.x0 rect.x1) (max rect.y0 rect.y1 - min rect.y0 rect.y1) / 2 := by
+      apply div_nonneg _ (by norm_num)
+      exact le_min (sub_nonneg.mpr min_le_max) (sub_nonneg.mpr min_le_max)
+    exact ⟨⟨le_min (abs_nonneg _) hm, min_le_right _ _⟩, ⟨le_min (abs_nonneg _) hm, min_le_right _ _⟩,
+      ⟨le_min (abs_nonneg _) hm, min_le_right _ _⟩, ⟨le_min (abs_nonneg _) hm, min_le_right _ _⟩⟩
+
+/-- **`RoundedRect::winding` is membership in the ideal rounded rectangle** (`RoundedRect.Ideal`,
+    `Proofs/Lemmas/C11RR.lean`: the closed rectangle minus, at each corner, the part of the `r × r` corner square outside
+    the inscribed disc of that corner's radius), for ordered corners and radii in `[0, min(w,h)/2]`; the set is closed
+    (boundary points count) and the value is `0` or `1` -/
+theorem roundedRect_winding_iff_ideal (s : RoundedRect K) (hn : s.rect.Nonneg) (hr : s.RadiiOk) (p : Point K) :
+    (s.winding p = 1 ↔ s.Ideal p) ∧ (s.winding p = 0 ∨ s.winding p = 1) :=
+  ⟨RoundedRect.winding_eq_one_iff_ideal s hn hr p, RoundedRect.winding_zero_or_one s p⟩
+
+/-- hence for everything `from_rect` builds (any corner order, any radii) -/
+theorem roundedRect_from_rect_winding_iff_ideal (rect : Rect K) (radii : RoundedRectRadii K) (p : Point K) :
+    (RoundedRect.from_rect rect radii).winding p = 1 ↔ (RoundedRect.from_rect rect radii).Ideal p :=
+  RoundedRect.winding_eq_one_iff_ideal _ (from_rect_normalises rect radii).2.1 (from_rect_normalises rect radii).2.2 p
+
+/-- quadrant level (the statement of the design-round prototype): steps 3–5 of `RoundedRect::winding`, the clamp
+    and circle test on `u = |x − cx|`, `v = |y − cy|` with half extents `hw, hh` and the selected radius `r`, decide
+    membership in the quadrant's share of the ideal shape -/
+theorem roundedRect_inside_iff_ideal (u v hw hh r : K) (hr : 0 ≤ r) (hrw : r ≤ hw) (hrh : r ≤ hh) :
+    max (u - max (hw - r) 0) 0 * max (u - max (hw - r) 0) 0 + max (v - max (hh - r) 0) 0 * max (v - max (hh - r) 0) 0
+        ≤ r * r ↔
+      u ≤ hw ∧ v ≤ hh ∧
+        (u ≤ hw - r ∨ v ≤ hh - r ∨ (u - (hw - r)) * (u - (hw - r)) + (v - (hh - r)) * (v - (hh - r)) ≤ r * r) :=
+  C11RR.inside_iff_ideal u v hw hh r hr hrw hrh
+
+/-- the ideal shape lies in the closed bounding box, which is the (normalised) rectangle -/
+theorem roundedRect_bbox (s : RoundedRect K) :
+    s.bounding_box = s.rect.abs ∧ (s.rect.Nonneg → s.bounding_box = s.rect) ∧
+    (∀ p, s.Ideal p → s.rect.ContainsClosed p) :=
+  ⟨rfl, fun h => h.abs_eq_self, fun _ h => h.1⟩
+
+/-- the box is tight for the ideal shape: the four tangent points at which the straight pieces of the outline start
+    (`rectEls`) belong to the ideal shape, one on each side of the rectangle -/
+theorem roundedRect_bbox_tight (s : RoundedRect K) (hn : s.rect.Nonneg) (hr : s.RadiiOk) :
+    s.Ideal ⟨s.rect.x0, s.rect.y0 + s.radii.top_left⟩ ∧ s.Ideal ⟨s.rect.x1 - s.radii.top_right, s.rect.y0⟩ ∧
+    s.Ideal ⟨s.rect.x1, s.rect.y1 - s.radii.bottom_right⟩ ∧ s.Ideal ⟨s.rect.x0 + s.radii.bottom_left, s.rect.y1⟩ :=
+  RoundedRect.ideal_tangent_points s hn hr
+
+/-- sanity of the definition `RoundedRect.Ideal`: with one radius for all corners it is the union of the two inner
+    strips and the four corner discs -/
+theorem roundedRect_ideal_uniform (rect : Rect K) (r : K) (hn : rect.Nonneg) (hr0 : 0 ≤ r)
+    (hrw : 2 * r ≤ rect.x1 - rect.x0) (hrh : 2 * r ≤ rect.y1 - rect.y0) (p : Point K) :
+    (⟨rect, ⟨r, r, r, r⟩⟩ : RoundedRect K).Ideal p ↔
+      (rect.x0 ≤ p.x ∧ p.x ≤ rect.x1 ∧ rect.y0 + r ≤ p.y ∧ p.y ≤ rect.y1 - r) ∨
+      (rect.x0 + r ≤ p.x ∧ p.x ≤ rect.x1 - r ∧ rect.y0 ≤ p.y ∧ p.y ≤ rect.y1) ∨
+      (p.x - (rect.x0 + r)) ^ 2 + (p.y - (rect.y0 + r)) ^ 2 ≤ r ^ 2 ∨
+      (p.x - (rect.x1 - r)) ^ 2 + (p.y - (rect.y0 + r)) ^ 2 ≤ r ^ 2 ∨
+      (p.x - (rect.x1 - r)) ^ 2 + (p.y - (rect.y1 - r)) ^ 2 ≤ r ^ 2 ∨
+      (p.x - (rect.x0 + r)) ^ 2 + (p.y - (rect.y1 - r)) ^ 2 ≤ r ^ 2 :=
+  RoundedRect.ideal_uniform_iff rect r hn hr0 hrw hrh p
+
+/-- the four arcs of the outline are quarter circles around the centres of the four corner discs of `Ideal`, with that
+    corner's radius, and the straight pieces start and end on the sides of the rectangle at the tangent points -/
+theorem roundedRect_outline_pieces (s : RoundedRect K) :
+    (s.arcs.map fun a => (a.center, a.radii)) =
+      [ (⟨s.rect.x0 + s.radii.top_left, s.rect.y0 + s.radii.top_left⟩, ⟨s.radii.top_left, s.radii.top_left⟩),
+        (⟨s.rect.x1 - s.radii.top_right, s.rect.y0 + s.radii.top_right⟩, ⟨s.radii.top_right, s.radii.top_right⟩),
+        (⟨s.rect.x1 - s.radii.bottom_right, s.rect.y1 - s.radii.bottom_right⟩,
+          ⟨s.radii.bottom_right, s.radii.bottom_right⟩),
+        (⟨s.rect.x0 + s.radii.bottom_left, s.rect.y1 - s.radii.bottom_left⟩,
+          ⟨s.radii.bottom_left, s.radii.bottom_left⟩) ] ∧
+    s.rectEls =
+      [ .MoveTo ⟨s.rect.x0, s.rect.y0 + s.radii.top_left⟩, .LineTo ⟨s.rect.x1 - s.radii.top_right, s.rect.y0⟩,
+        .LineTo ⟨s.rect.x1, s.rect.y1 - s.radii.bottom_right⟩, .LineTo ⟨s.rect.x0 + s.radii.bottom_left, s.rect.y1⟩,
+        .ClosePath ] := by
+  constructor
+  · simp only [RoundedRect.arcs, List.map_cons, List.map_nil, scalar_norm]
+  · simp only [RoundedRect.rectEls, scalar_norm]
+
+/-- `area` and `perimeter` are those of the ideal shape: the rectangle's, minus `(1 − π/4)·r²` resp. `(2 − π/2)·r`
+    for each corner (`π` = `Scalar.pi`; nothing about its value is used) -/
+theorem roundedRect_area_perimeter_eq (s : RoundedRect K) :
+    s.area = (s.rect.x1 - s.rect.x0) * (s.rect.y1 - s.rect.y0)
+      - (1 - Scalar.pi / 4) * (s.radii.top_left ^ 2 + s.radii.top_right ^ 2 + s.radii.bottom_right ^ 2
+          + s.radii.bottom_left ^ 2) ∧
+    s.perimeter = 2 * (|s.rect.x1 - s.rect.x0| + |s.rect.y1 - s.rect.y0|)
+      - (2 - Scalar.pi / 2) * (s.radii.top_left + s.radii.top_right + s.radii.bottom_right + s.radii.bottom_left) := by
+  constructor
+  · simp only [RoundedRect.area, Rect.area, Rect.width, Rect.height, fracPi4, List.foldl_cons, List.foldl_nil,
+      scalar_norm]
+    push_cast; ring
+  · simp only [RoundedRect.perimeter, Rect.perimeter, Rect.width, Rect.height, fracPi2, List.foldl_cons,
+      List.foldl_nil, scalar_norm]
+    push_cast; ring
+
+end roundedRect
+
+/-! ## 4. Circle, Ellipse -/
+section circle
+variable {K : Type} [Field K] [LinearOrder K] [IsStrictOrderedRing K] [FloorRing K] [Scalar K] [LawfulScalar K]
+
+/-- `Circle::winding` is membership in the OPEN disc (points on the circle itself get `0`), for either sign of the
+    stored radius -/
+theorem circle_winding_iff (c : Circle K) (p : Point K) :
+    (c.winding p = 1 ↔ (p.x - c.center.x) ^ 2 + (p.y - c.center.y) ^ 2 < c.radius ^ 2) ∧
+    (c.winding p = 0 ∨ c.winding p = 1) := by
+  simp only [Circle.winding, kdefs, scalar_norm, decide_eq_true_eq]
+  have e : (p.x - c.center.x) * (p.x - c.center.x) + (p.y - c.center.y) * (p.y - c.center.y)
+      = (p.x - c.center.x) ^ 2 + (p.y - c.center.y) ^ 2 := by ring
+  rw [e]
+  constructor
+  · exact ite_one_zero_eq_one_iff _
+  · split_ifs
+    · exact Or.inr rfl
+    · exact Or.inl rfl
+
+/-- the box `center ± |r|` contains the closed disc and is tight: the four extreme points `center ± (|r|, 0)`,
+    `center ± (0, |r|)` lie on the circle and on the four sides -/
+theorem circle_bbox_tight (c : Circle K) :
+    c.bounding_box = ⟨c.center.x - |c.radius|, c.center.y - |c.radius|, c.center.x + |c.radius|, c.center.y + |c.radius|⟩ ∧
+    c.bounding_box.Nonneg ∧
+    (∀ p : Point K, (p.x - c.center.x) ^ 2 + (p.y - c.center.y) ^ 2 ≤ c.radius ^ 2 → c.bounding_box.ContainsClosed p) ∧
+    ((c.center.x + |c.radius| - c.center.x) ^ 2 + (c.center.y - c.center.y) ^ 2 = c.radius ^ 2 ∧
+      c.bounding_box.x1 = c.center.x + |c.radius|) ∧
+    ((c.center.x - |c.radius| - c.center.x) ^ 2 + (c.center.y - c.center.y) ^ 2 = c.radius ^ 2 ∧
+      c.bounding_box.x0 = c.center.x - |c.radius|) ∧
+    ((c.center.x - c.center.x) ^ 2 + (c.center.y + |c.radius| - c.center.y) ^ 2 = c.radius ^ 2 ∧
+      c.bounding_box.y1 = c.center.y + |c.radius|) ∧
+    ((c.center.x - c.center.x) ^ 2 + (c.center.y - |c.radius| - c.center.y) ^ 2 = c.radius ^ 2 ∧
+      c.bounding_box.y0 = c.center.y - |c.radius|) := by
+  have e : c.bounding_box
+      = ⟨c.center.x - |c.radius|, c.center.y - |c.radius|, c.center.x + |c.radius|, c.center.y + |c.radius|⟩ := by
+    simp only [Circle.bounding_box, kdefs, scalar_norm]
+  have ha := abs_nonneg c.radius
+  have hs : |c.radius| ^ 2 = c.radius ^ 2 := sq_abs c.radius
+  rw [e]
+  refine ⟨rfl, ⟨by linarith, by linarith⟩, ?_, ⟨by rw [← hs]; ring, rfl⟩, ⟨by rw [← hs]; ring, rfl⟩,
+    ⟨by rw [← hs]; ring, rfl⟩, ⟨by rw [← hs]; ring, rfl⟩⟩
+  intro p hp
+  have hx : (p.x - c.center.x) ^ 2 ≤ |c.radius| ^ 2 := by rw [hs]; nlinarith [sq_nonneg (p.y - c.center.y)]
+  have hy : (p.y - c.center.y) ^ 2 ≤ |c.radius| ^ 2 := by rw [hs]; nlinarith [sq_nonneg (p.x - c.center.x)]
+  obtain ⟨hx1, hx2⟩ := abs_le_of_sq_le_sq' hx ha
+  obtain ⟨hy1, hy2⟩ := abs_le_of_sq_le_sq' hy ha
+  exact ⟨by linarith, by linarith, by linarith, by linarith⟩
+
+/-- `area = π r²`, `perimeter = |2πr|` with `π = Scalar.pi` (formulas of the ideal circle; nothing about the value of
+    `Scalar.pi` is used) -/
+theorem circle_area_perimeter_eq (c : Circle K) :
+    c.area = Scalar.pi * c.radius ^ 2 ∧ c.perimeter = |2 * Scalar.pi * c.radius| := by
+  constructor
+  · simp only [Circle.area, scalar_norm]
+  · simp only [Circle.perimeter, scalar_norm]; push_cast; rfl
+
+/-- `Ellipse::winding` is `1` exactly when the pre-image of `p` under the stored affine map, computed with
+    `Affine::inverse`, lies in the open unit disc -/
+theorem ellipse_winding_iff (e : Ellipse K) (p : Point K) :
+    (e.winding p = 1 ↔ (e.inner.inverse * p).x ^ 2 + (e.inner.inverse * p).y ^ 2 < 1) ∧
+    (e.winding p = 0 ∨ e.winding p = 1) := by
+  simp only [Ellipse.winding, Point.to_vec2, Vec2.hypot2, Vec2.dot, scalar_norm, decide_eq_true_eq]
+  push_cast
+  have e' : (e.inner.inverse * p).x * (e.inner.inverse * p).x + (e.inner.inverse * p).y * (e.inner.inverse * p).y
+      = (e.inner.inverse * p).x ^ 2 + (e.inner.inverse * p).y ^ 2 := by ring
+  rw [e']
+  constructor
+  · exact ite_one_zero_eq_one_iff _
+  · split_ifs
+    · exact Or.inr rfl
+    · exact Or.inl rfl
+
+/-- for a non-singular stored map: membership in the image of the open unit disc -/
+theorem ellipse_winding_iff_image (e : Ellipse K) (h : e.inner.determinant ≠ 0) (p : Point K) :
+    e.winding p = 1 ↔ ∃ q : Point K, q.x ^ 2 + q.y ^ 2 < 1 ∧ e.inner * q = p := by
+  rw [(ellipse_winding_iff e p).1]
+  constructor
+  · intro hq
+    exact ⟨e.inner.inverse * p, hq, (affine_inverse_act e.inner h p).2⟩
+  · rintro ⟨q, hq, rfl⟩
+    rw [(affine_inverse_act e.inner h q).1]; exact hq
+
+/-- Cauchy–Schwarz: the image of the closed unit disc lies in `Ellipse::bounding_box`, given that `Scalar.sqrt` is
+    exact at the two arguments the function passes to it -/
+theorem ellipse_bbox_contains (e : Ellipse K)
+    (hx : SqrtExact (e.inner.c0 * e.inner.c0 + e.inner.c2 * e.inner.c2))
+    (hy : SqrtExact (e.inner.c1 * e.inner.c1 + e.inner.c3 * e.inner.c3))
+    (q : Point K) (hq : q.x ^ 2 + q.y ^ 2 ≤ 1) :
+    e.bounding_box.ContainsClosed (e.inner * q) := by
+  obtain ⟨hx0, hx2⟩ := hx
+  obtain ⟨hy0, hy2⟩ := hy
+  simp only [Ellipse.bounding_box, Rect.ContainsClosed, kdefs, scalar_norm]
+  set rx := Scalar.sqrt (e.inner.c0 * e.inner.c0 + e.inner.c2 * e.inner.c2)
+  set ry := Scalar.sqrt (e.inner.c1 * e.inner.c1 + e.inner.c3 * e.inner.c3)
+  have cs : ∀ a b R : K, 0 ≤ R → R * R = a * a + b * b → -R ≤ a * q.x + b * q.y ∧ a * q.x + b * q.y ≤ R := by
+    intro a b R hR hRR
+    apply abs_le_of_sq_le_sq' _ hR
+    nlinarith [sq_nonneg (a * q.y - b * q.x), mul_nonneg (add_nonneg (mul_self_nonneg a) (mul_self_nonneg b))
+      (sub_nonneg.mpr hq)]
+  obtain ⟨h1, h2⟩ := cs _ _ rx hx0 hx2
+  obtain ⟨h3, h4⟩ := cs _ _ ry hy0 hy2
+  exact ⟨by linarith, by linarith, by linarith, by linarith⟩
+
+/-- … and the box is tight: each of its four sides contains the image of a point of the unit circle -/
+theorem ellipse_bbox_tight (e : Ellipse K)
+    (hx : SqrtExact (e.inner.c0 * e.inner.c0 + e.inner.c2 * e.inner.c2))
+    (hy : SqrtExact (e.inner.c1 * e.inner.c1 + e.inner.c3 * e.inner.c3)) :
+    (∃ q : Point K, q.x ^ 2 + q.y ^ 2 = 1 ∧ (e.inner * q).x = e.bounding_box.x1) ∧
+    (∃ q : Point K, q.x ^ 2 + q.y ^ 2 = 1 ∧ (e.inner * q).x = e.bounding_box.x0) ∧
+    (∃ q : Point K, q.x ^ 2 + q.y ^ 2 = 1 ∧ (e.inner * q).y = e.bounding_box.y1) ∧
+    (∃ q : Point K, q.x ^ 2 + q.y ^ 2 = 1 ∧ (e.inner * q).y = e.bounding_box.y0) := by
+  obtain ⟨hx0, hx2⟩ := hx
+  obtain ⟨hy0, hy2⟩ := hy
+  simp only [Ellipse.bounding_box, kdefs, scalar_norm]
+  set rx := Scalar.sqrt (e.inner.c0 * e.inner.c0 + e.inner.c2 * e.inner.c2)
+  set ry := Scalar.sqrt (e.inner.c1 * e.inner.c1 + e.inner.c3 * e.inner.c3)
+  -- a unit vector `(u, v)` with `a u + b v = R`
+  have key : ∀ a b R : K, R * R = a * a + b * b → ∃ u v : K, u ^ 2 + v ^ 2 = 1 ∧ a * u + b * v = R := by
+    intro a b R hRR
+    by_cases hR : R = 0
+    · have ha : a = 0 := by
+        have : a * a = 0 := by nlinarith [mul_self_nonneg a, mul_self_nonneg b, hRR, hR]
+        exact mul_self_eq_zero.mp this
+      have hb : b = 0 := by
+        have : b * b = 0 := by nlinarith [mul_self_nonneg a, mul_self_nonneg b, hRR, hR]
+        exact mul_self_eq_zero.mp this
+      exact ⟨1, 0, by norm_num, by rw [ha, hb, hR]; ring⟩
+    · refine ⟨a / R, b / R, ?_, ?_⟩
+      · field_simp; linear_combination -hRR
+      · field_simp; linear_combination -hRR
+  obtain ⟨u, v, huv, hu⟩ := key _ _ rx hx2
+  obtain ⟨u', v', huv', hu'⟩ := key _ _ ry hy2
+  refine ⟨⟨⟨u, v⟩, huv, by simp only; linarith⟩, ⟨⟨-u, -v⟩, by simp only; rw [← huv]; ring, by simp only; linarith⟩,
+    ⟨⟨u', v'⟩, huv', by simp only; linarith⟩, ⟨⟨-u', -v'⟩, by simp only; rw [← huv']; ring, by simp only; linarith⟩⟩
+
+/-- `Ellipse::area` is `π·|det|` of the stored map (the product of the two singular values `svd` computes is
+    `|det|`), given that `Scalar.sqrt` is the exact square root on non-negative arguments -/
+theorem ellipse_area_eq (e : Ellipse K) (hs : ∀ x : K, 0 ≤ x → SqrtExact x) :
+    e.area = Scalar.pi * |e.inner.determinant| := by
+  simp only [Ellipse.area, Affine.svd, Affine.determinant, scalar_norm]
+  push_cast
+  set a := e.inner.c0
+  set b := e.inner.c1
+  set c := e.inner.c2
+  set d := e.inner.c3
+  have hD : 0 ≤ (a * a - b * b + c * c - d * d) ^ 2 + 4 * (a * b + c * d) ^ 2 := by positivity
+  obtain ⟨h20, h22⟩ := hs _ hD
+  set s2 := Scalar.sqrt ((a * a - b * b + c * c - d * d) ^ 2 + 4 * (a * b + c * d) ^ 2)
+  have hs1 : 0 ≤ a * a + b * b + c * c + d * d := by
+    nlinarith [mul_self_nonneg a, mul_self_nonneg b, mul_self_nonneg c, mul_self_nonneg d]
+  have hle : s2 ≤ a * a + b * b + c * c + d * d := by
+    by_contra hlt
+    push Not at hlt
+    nlinarith [mul_self_lt_mul_self hs1 hlt, sq_nonneg (a * d - b * c)]
+  obtain ⟨hp0, hp2⟩ := hs (1 / 2 * (a * a + b * b + c * c + d * d + s2)) (by linarith)
+  obtain ⟨hm0, hm2⟩ := hs (1 / 2 * (a * a + b * b + c * c + d * d - s2)) (by linarith)
+  set rp := Scalar.sqrt (1 / 2 * (a * a + b * b + c * c + d * d + s2))
+  set rm := Scalar.sqrt (1 / 2 * (a * a + b * b + c * c + d * d - s2))
+  have hprod : rp * rm = |a * d - b * c| := by
+    have h0 : 0 ≤ rp * rm := mul_nonneg hp0 hm0
+    have hsq : (rp * rm) * (rp * rm) = (a * d - b * c) * (a * d - b * c) := by
+      have : (rp * rm) * (rp * rm) = (rp * rp) * (rm * rm) := by ring
+      rw [this, hp2, hm2]
+      linear_combination (-1 / 4 : K) * h22
+    rw [← abs_of_nonneg h0]
+    exact abs_eq_abs.mpr ((mul_self_eq_mul_self_iff).mp hsq)
+  rw [mul_assoc, hprod]
+
+end circle
+
+/-! ### over ℝ the square-root hypotheses hold -/
+section ellipseReal
+variable [Scalar ℝ] [LawfulScalar ℝ] [LawfulReal]
+
+/-- (ℝ) the box of an ellipse contains the image of the closed unit disc and each side touches the image of the unit
+    circle; the area is `π·|det|` -/
+theorem ellipse_bbox_area_real (e : Ellipse ℝ) :
+    (∀ q : Point ℝ, q.x ^ 2 + q.y ^ 2 ≤ 1 → e.bounding_box.ContainsClosed (e.inner * q)) ∧
+    ((∃ q : Point ℝ, q.x ^ 2 + q.y ^ 2 = 1 ∧ (e.inner * q).x = e.bounding_box.x1) ∧
+      (∃ q : Point ℝ, q.x ^ 2 + q.y ^ 2 = 1 ∧ (e.inner * q).x = e.bounding_box.x0) ∧
+      (∃ q : Point ℝ, q.x ^ 2 + q.y ^ 2 = 1 ∧ (e.inner * q).y = e.bounding_box.y1) ∧
+      (∃ q : Point ℝ, q.x ^ 2 + q.y ^ 2 = 1 ∧ (e.inner * q).y = e.bounding_box.y0)) ∧
+    e.area = Scalar.pi * |e.inner.determinant| := by
+  have hx := sqrtExact_of_lawfulReal (e.inner.c0 * e.inner.c0 + e.inner.c2 * e.inner.c2)
+    (add_nonneg (mul_self_nonneg _) (mul_self_nonneg _))
+  have hy := sqrtExact_of_lawfulReal (e.inner.c1 * e.inner.c1 + e.inner.c3 * e.inner.c3)
+    (add_nonneg (mul_self_nonneg _) (mul_self_nonneg _))
+  exact ⟨fun q hq => ellipse_bbox_contains e hx hy q hq, ellipse_bbox_tight e hx hy,
+    ellipse_area_eq e sqrtExact_of_lawfulReal⟩
+
+end ellipseReal
+
+/-! ## 5. CircleSegment -/
+section circleSegment
+variable {K : Type} [Field K] [LinearOrder K] [IsStrictOrderedRing K] [FloorRing K] [Scalar K] [LawfulScalar K]
+
+/-- radial part of `CircleSegment::winding` (needs no trigonometry, holds for whatever `atan2`, `fmod`, `pi` are):
+    the value is `0` or `1`, and `1` only strictly between the two circles (the radii in either order) -/
+theorem cseg_winding_radial (s : CircleSegment K) (p : Point K) :
+    (s.winding p = 0 ∨ s.winding p = 1) ∧
+    (s.winding p = 1 →
+      (s.inner_radius ^ 2 < (p.x - s.center.x) ^ 2 + (p.y - s.center.y) ^ 2 ∧
+        (p.x - s.center.x) ^ 2 + (p.y - s.center.y) ^ 2 < s.outer_radius ^ 2) ∨
+      (s.outer_radius ^ 2 < (p.x - s.center.x) ^ 2 + (p.y - s.center.y) ^ 2 ∧
+        (p.x - s.center.x) ^ 2 + (p.y - s.center.y) ^ 2 < s.inner_radius ^ 2)) := by
+  have e : (p.x - s.center.x) * (p.x - s.center.x) + (p.y - s.center.y) * (p.y - s.center.y)
+      = (p.x - s.center.x) ^ 2 + (p.y - s.center.y) ^ 2 := by ring
+  unfold CircleSegment.winding
+  simp only [Vec2.hypot2, Vec2.dot, point_sub, scalar_norm, Bool.or_eq_true, Bool.and_eq_true, decide_eq_true_eq, e]
+  constructor
+  · split_ifs <;> first | exact Or.inl rfl | exact Or.inr rfl
+  · split_ifs
+    all_goals first
+      | (intro h; exact absurd h (by decide))
+      | (intro _; rcases ‹(_ ∧ _) ∨ (_ ∧ _)› with h | h
+         · exact Or.inl ⟨h.2, h.1⟩
+         · exact Or.inr ⟨h.2, h.1⟩)
+
+/-- for non-negative radii the points counted by `winding` lie in `CircleSegment::bounding_box` (the box of the larger
+    circle; it is NOT tight for a proper sector, and kurbo does not claim so) -/
+theorem cseg_bbox_contains (s : CircleSegment K) (hi : 0 ≤ s.inner_radius) (ho : 0 ≤ s.outer_radius) (p : Point K)
+    (h : s.winding p = 1) : s.bounding_box.ContainsClosed p := by
+  have hb : s.bounding_box = ⟨s.center.x - max s.inner_radius s.outer_radius, s.center.y - max s.inner_radius s.outer_radius,
+      s.center.x + max s.inner_radius s.outer_radius, s.center.y + max s.inner_radius s.outer_radius⟩ := by
+    simp only [CircleSegment.bounding_box, kdefs, scalar_norm]
+  have hR : 0 ≤ max s.inner_radius s.outer_radius := le_trans hi (le_max_left _ _)
+  have hd : (p.x - s.center.x) ^ 2 + (p.y - s.center.y) ^ 2 ≤ max s.inner_radius s.outer_radius ^ 2 := by
+    rcases (cseg_winding_radial s p).2 h with ⟨_, h2⟩ | ⟨_, h2⟩
+    · exact le_trans h2.le (pow_le_pow_left₀ ho (le_max_right _ _) 2)
+    · exact le_trans h2.le (pow_le_pow_left₀ hi (le_max_left _ _) 2)
+  have hx : (p.x - s.center.x) ^ 2 ≤ max s.inner_radius s.outer_radius ^ 2 := by
+    nlinarith [sq_nonneg (p.y - s.center.y)]
+  have hy : (p.y - s.center.y) ^ 2 ≤ max s.inner_radius s.outer_radius ^ 2 := by
+    nlinarith [sq_nonneg (p.x - s.center.x)]
+  obtain ⟨a1, a2⟩ := abs_le_of_sq_le_sq' hx hR
+  obtain ⟨b1, b2⟩ := abs_le_of_sq_le_sq' hy hR
+  rw [hb]
+  exact ⟨by simp only; linarith, by simp only; linarith, by simp only; linarith, by simp only; linarith⟩
+
+/-- `area = ½·|R² − r²|·sweep`, `perimeter = 2|R − r| + sweep·(r + R)`: the formulas of the ideal annular sector for
+    a non-negative sweep angle -/
+theorem cseg_area_perimeter_eq (s : CircleSegment K) :
+    s.area = 1 / 2 * |s.outer_radius ^ 2 - s.inner_radius ^ 2| * s.sweep_angle ∧
+    s.perimeter = 2 * |s.outer_radius - s.inner_radius| + s.sweep_angle * (s.inner_radius + s.outer_radius) := by
+  constructor
+  · simp only [CircleSegment.area, scalar_norm]; push_cast; rfl
+  · simp only [CircleSegment.perimeter, scalar_norm]; push_cast; rfl
+
+end circleSegment
+
+/-! ### the whole test over ℝ -/
+section circleSegmentReal
+open Real
+variable [Scalar ℝ] [LawfulScalar ℝ] [LawfulReal] [LawfulRealAngle]
+
+/-- **`CircleSegment::winding` is membership in the annular sector** (ℝ; `atan2 = Complex.arg`, `%` = C `fmod`,
+    `Scalar.pi = π`): the value is `1` exactly when the point lies strictly between the two circles and its direction
+    from the centre is `start + σ·θ` for some `θ ∈ [0, |sweep|]`, `σ = ±1` the sign of the sweep (`signum`, so `σ = 1`
+    for a zero sweep).  No restriction on `start`, on the size of the sweep, or on ranges crossing `±π`. -/
+theorem cseg_winding_iff_sector (s : CircleSegment ℝ) (p : Point ℝ) :
+    s.winding p = 1 ↔
+      ((s.inner_radius ^ 2 < (p.x - s.center.x) ^ 2 + (p.y - s.center.y) ^ 2 ∧
+          (p.x - s.center.x) ^ 2 + (p.y - s.center.y) ^ 2 < s.outer_radius ^ 2) ∨
+        (s.outer_radius ^ 2 < (p.x - s.center.x) ^ 2 + (p.y - s.center.y) ^ 2 ∧
+          (p.x - s.center.x) ^ 2 + (p.y - s.center.y) ^ 2 < s.inner_radius ^ 2)) ∧
+      ∃ θ : ℝ, 0 ≤ θ ∧ θ ≤ |s.sweep_angle| ∧
+        p.x - s.center.x = √((p.x - s.center.x) ^ 2 + (p.y - s.center.y) ^ 2)
+          * cos (s.start_angle + (if s.sweep_angle < 0 then -1 else 1) * θ) ∧
+        p.y - s.center.y = √((p.x - s.center.x) ^ 2 + (p.y - s.center.y) ^ 2)
+          * sin (s.start_angle + (if s.sweep_angle < 0 then -1 else 1) * θ) := by
+  rw [CircleSegment.winding_eq_one_iff_real]
+  set z : ℂ := ⟨p.x - s.center.x, p.y - s.center.y⟩ with hz
+  have hnorm : √((p.x - s.center.x) ^ 2 + (p.y - s.center.y) ^ 2) = ‖z‖ := (Complex.norm_eq_sqrt_sq_add_sq z).symm
+  rw [hnorm]
+  obtain ⟨σ, hσ, hcast⟩ : ∃ σ : ℤ, (σ = 1 ∨ σ = -1) ∧ ((σ : ℝ) = if s.sweep_angle < 0 then (-1 : ℝ) else 1) := by
+    by_cases h : s.sweep_angle < 0
+    · exact ⟨-1, Or.inr rfl, by rw [if_pos h]; norm_num⟩
+    · exact ⟨1, Or.inl rfl, by rw [if_neg h]; norm_num⟩
+  rw [← hcast]
+  constructor
+  · rintro ⟨hle, hrad⟩
+    obtain ⟨h0, _, _⟩ := redAngle_spec ((Complex.arg z - s.start_angle) * σ)
+    obtain ⟨hc, hs⟩ := redAngle_direction z s.start_angle σ hσ
+    exact ⟨hrad, _, h0, hle, hc.symm, hs.symm⟩
+  · rintro ⟨hrad, θ, h0, h1, hx, hy⟩
+    refine ⟨le_trans (redAngle_le_of_direction z ?_ s.start_angle θ σ hσ h0 hx hy) h1, hrad⟩
+    intro hz0
+    have hre : p.x - s.center.x = 0 := by have := congrArg Complex.re hz0; simpa [hz] using this
+    have him : p.y - s.center.y = 0 := by have := congrArg Complex.im hz0; simpa [hz] using this
+    rw [hre, him] at hrad
+    rcases hrad with ⟨h, _⟩ | ⟨h, _⟩
+    · nlinarith [sq_nonneg s.inner_radius]
+    · nlinarith [sq_nonneg s.outer_radius]
+
+end circleSegmentReal
+end Kurbo
+
+/-! ## non-vacuity: concrete inputs meeting the hypotheses (over `Rat`, the scalar the driver executes) -/
+namespace Kurbo
+namespace C11Examples
+open PathEl
+
+/-- a rectangle with reversed x axis -/
+def rRev : Rect Rat := ⟨3, 1, 0, 2⟩
+-- 1: inside (negative orientation), outside, and the boundary points: low edges/corner are in, high edges are out,
+-- in the closed form and in the outline alike
+example : pathWinding rRev.path_elements ⟨1, 3/2⟩ = some (-1) ∧ rRev.winding ⟨1, 3/2⟩ = -1 := by decide +kernel
+example : pathWinding rRev.path_elements ⟨0, 1⟩ = some (-1) ∧ rRev.winding ⟨0, 1⟩ = -1 ∧
+    pathWinding rRev.path_elements ⟨3, 1⟩ = some 0 ∧ rRev.winding ⟨3, 1⟩ = 0 ∧
+    pathWinding rRev.path_elements ⟨1, 2⟩ = some 0 ∧ rRev.winding ⟨1, 2⟩ = 0 ∧
+    pathWinding rRev.path_elements ⟨0, 3/2⟩ = some (-1) ∧ rRev.winding ⟨0, 3/2⟩ = -1 := by decide +kernel
+example : rRev.abs.contains ⟨1, 3/2⟩ = true ∧ pathArea rRev.path_elements = some (-3) ∧ rRev.area = -3 ∧
+    rRev.perimeter 0 = 8 ∧ pathBoundingBox rRev.path_elements = some ⟨0, 1, 3, 2⟩ := by decide +kernel
+-- a degenerate rectangle (zero height): the closing edge is not even emitted; still equal
+example : pathWinding (⟨0, 1, 2, 1⟩ : Rect Rat).path_elements ⟨1, 1⟩ = some 0 ∧ (⟨0, 1, 2, 1⟩ : Rect Rat).winding ⟨1, 1⟩ = 0 := by
+  decide +kernel
+-- `rect_winding_eq_contains`: ordered corners
+example : (⟨0, 1, 3, 2⟩ : Rect Rat).Nonneg := by norm_num [Rect.Nonneg]
+-- tiling: the grid lines 0,1,2,… ; hypotheses of `interval_tiling`, `rect_grid_tiling`
+example : Monotone (fun i : ℕ => (i : Rat)) := Nat.mono_cast
+example : ((fun i : ℕ => (i : Rat)) 0 ≤ 5/2 ∧ (5/2 : Rat) < (fun i : ℕ => (i : Rat)) 4) ∧
+    ((fun i : ℕ => (i : Rat)) 2 ≤ 5/2 ∧ (5/2 : Rat) < (fun i : ℕ => (i : Rat)) (2 + 1)) := by norm_num
+example : (⟨0, 0, 4, 3⟩ : Rect Rat).winding ⟨2, 1⟩ ≠ 0 ∧ (⟨2, 1, 3, 2⟩ : Rect Rat).winding ⟨2, 1⟩ ≠ 0 ∧
+    (⟨1, 1, 2, 2⟩ : Rect Rat).winding ⟨2, 1⟩ = 0 ∧ (⟨2, 0, 3, 1⟩ : Rect Rat).winding ⟨2, 1⟩ = 0 ∧
+    (⟨1, 0, 2, 1⟩ : Rect Rat).winding ⟨2, 1⟩ = 0 := by decide +kernel
+-- `rect_tiling_horizontal` / `_vertical`: a point ON the shared edge goes to the right-hand / lower tile only
+example : (0 : Rat) ≤ 1 ∧ (1 : Rat) ≤ 3 ∧ (0 : Rat) ≤ 2 := by norm_num
+example : (⟨0, 0, 1, 2⟩ : Rect Rat).winding ⟨1, 1⟩ = 0 ∧ (⟨1, 0, 3, 2⟩ : Rect Rat).winding ⟨1, 1⟩ = 1 ∧
+    (⟨0, 0, 3, 2⟩ : Rect Rat).winding ⟨1, 1⟩ = 1 := by decide +kernel
+
+/-- counter-clockwise and clockwise triangles; the row `y = 0` passes through two vertices -/
+def tri : Triangle Rat := ⟨⟨0, 0⟩, ⟨4, 0⟩, ⟨0, 4⟩⟩
+def triCw : Triangle Rat := ⟨⟨0, 0⟩, ⟨0, 4⟩, ⟨4, 0⟩⟩
+example : pathWinding tri.path_elements ⟨1, 1⟩ = some 1 ∧ tri.winding ⟨1, 1⟩ = 1 ∧
+    pathWinding triCw.path_elements ⟨1, 1⟩ = some (-1) ∧ triCw.winding ⟨1, 1⟩ = -1 ∧
+    pathWinding tri.path_elements ⟨-1, 0⟩ = some 0 ∧ tri.winding ⟨-1, 0⟩ = 0 ∧
+    pathWinding tri.path_elements ⟨5, 0⟩ = some 0 ∧ tri.winding ⟨5, 0⟩ = 0 := by decide +kernel
+example : pathArea tri.path_elements = some 8 ∧ tri.area = 8 ∧ triCw.area = -8 ∧
+    pathBoundingBox tri.path_elements = some ⟨0, 0, 4, 4⟩ ∧ tri.bounding_box = ⟨0, 0, 4, 4⟩ := by decide +kernel
+
+-- hypotheses of `triangle_winding_eq_path_winding` for `tri` and the point `(−1, 0)` ON the supporting line of the
+-- edge `a b` (whose row passes through two vertices) but off the edge
+example : ¬ OnSeg (.Line ⟨tri.a, tri.b⟩) ⟨-1, 0⟩ ∧ ¬ OnSeg (.Line ⟨tri.b, tri.c⟩) ⟨-1, 0⟩ ∧
+    ¬ OnSeg (.Line ⟨tri.c, tri.a⟩) ⟨-1, 0⟩ := by
+  refine ⟨notOnSeg_of _ _ _ ?_, notOnSeg_of _ _ _ ?_, notOnSeg_of _ _ _ ?_⟩ <;>
+    (intro t h0 h1 hx hy; simp only [tri] at hx hy; linarith)
+example : ¬ ((tri.b - tri.a).cross ((⟨-1, 0⟩ : Point Rat) - tri.a) = 0 ∧
+    (tri.c - tri.b).cross ((⟨-1, 0⟩ : Point Rat) - tri.b) = 0 ∧
+    (tri.a - tri.c).cross ((⟨-1, 0⟩ : Point Rat) - tri.c) = 0) := by decide +kernel
+example : tri.area ≠ 0 := by decide +kernel
+
+/-- **the excluded case is real** (design finding (n)): a DEGENERATE triangle and a point of its supporting line that
+    lies on none of its edges – the closed form says `1` (three times `signum(0) = 1`), the outline says `0`.  This is
+    outside the property's quantifier ("both orientations": a zero-area triangle has none); the hypothesis `hnd` of
+    `triangle_winding_eq_path_winding` is exactly what excludes it. -/
+def triDeg : Triangle Rat := ⟨⟨1, 1⟩, ⟨2, 2⟩, ⟨3, 3⟩⟩
+example : triDeg.winding ⟨0, 0⟩ = 1 ∧ pathWinding triDeg.path_elements ⟨0, 0⟩ = some 0 ∧ triDeg.area = 0 := by
+  decide +kernel
+example : ¬ OnSeg (.Line ⟨triDeg.a, triDeg.b⟩) ⟨0, 0⟩ ∧ ¬ OnSeg (.Line ⟨triDeg.b, triDeg.c⟩) ⟨0, 0⟩ ∧
+    ¬ OnSeg (.Line ⟨triDeg.c, triDeg.a⟩) ⟨0, 0⟩ := by
+  refine ⟨notOnSeg_of _ _ _ ?_, notOnSeg_of _ _ _ ?_, notOnSeg_of _ _ _ ?_⟩ <;>
+    (intro t h0 h1 hx hy; simp only [triDeg] at hx hy; linarith)
+example : (triDeg.b - triDeg.a).cross ((⟨0, 0⟩ : Point Rat) - triDeg.a) = 0 ∧
+    (triDeg.c - triDeg.b).cross ((⟨0, 0⟩ : Point Rat) - triDeg.b) = 0 ∧
+    (triDeg.a - triDeg.c).cross ((⟨0, 0⟩ : Point Rat) - triDeg.c) = 0 := by decide +kernel
+
+/-- reversed corners, a negative radius, one beyond half the side, a zero one -/
+def rr : RoundedRect Rat := RoundedRect.from_rect ⟨4, 2, 0, 0⟩ ⟨1, 5, -1, 0⟩
+example : rr.rect = ⟨0, 0, 4, 2⟩ ∧ rr.radii.top_left = 1 ∧ rr.radii.top_right = 1 ∧ rr.radii.bottom_right = 1 ∧
+    rr.radii.bottom_left = 0 := by decide +kernel
+example : rr.rect.Nonneg ∧ rr.RadiiOk := ⟨(from_rect_normalises _ _).2.1, (from_rect_normalises _ _).2.2⟩
+example : (⟨⟨0, 0, 4, 2⟩, ⟨1, 1/2, 1, 0⟩⟩ : RoundedRect Rat).rect.Nonneg ∧
+    (⟨⟨0, 0, 4, 2⟩, ⟨1, 1/2, 1, 0⟩⟩ : RoundedRect Rat).RadiiOk := by
+  norm_num [Rect.Nonneg, RoundedRect.RadiiOk]
+-- centre, a point of the top-left corner square outside the disc, one inside the disc, the square bottom-left corner
+-- itself (radius 0), a point on the rounded boundary
+example : rr.winding ⟨2, 1⟩ = 1 ∧ rr.winding ⟨1/10, 1/10⟩ = 0 ∧ rr.winding ⟨1/2, 1/2⟩ = 1 ∧ rr.winding ⟨0, 2⟩ = 1 ∧
+    rr.winding ⟨4, 1⟩ = 1 ∧ rr.winding ⟨1 - 3/5, 1 - 4/5⟩ = 1 ∧ rr.winding ⟨5, 1⟩ = 0 := by decide +kernel
+-- `roundedRect_ideal_uniform` / `roundedRect_inside_iff_ideal`
+example : (⟨0, 0, 4, 2⟩ : Rect Rat).Nonneg ∧ (0 : Rat) ≤ 1 ∧ (2 * 1 : Rat) ≤ 4 - 0 ∧ (2 * 1 : Rat) ≤ 2 - 0 := by
+  norm_num [Rect.Nonneg]
+
+/-- a circle stored with a negative radius -/
+def circ : Circle Rat := ⟨⟨1, 1⟩, -2⟩
+example : circ.winding ⟨2, 2⟩ = 1 ∧ circ.winding ⟨3, 1⟩ = 0 ∧ circ.winding ⟨4, 1⟩ = 0 ∧
+    circ.bounding_box = ⟨-1, -1, 3, 3⟩ := by decide +kernel
+
+/-- an ellipse whose stored map has rational column norms: `3² + 4² = 5²`, `5² + 12² = 13²`, `det = 16` -/
+def ell : Ellipse Rat := ⟨⟨3, 5, 4, 12, 1, -1⟩⟩
+example : ell.inner.determinant ≠ 0 := by decide +kernel
+example : SqrtExact (ell.inner.c0 * ell.inner.c0 + ell.inner.c2 * ell.inner.c2) ∧
+    SqrtExact (ell.inner.c1 * ell.inner.c1 + ell.inner.c3 * ell.inner.c3) := by
+  unfold SqrtExact; decide +kernel
+example : ell.bounding_box = ⟨-4, -14, 6, 12⟩ ∧ ell.winding ⟨1, -1⟩ = 1 ∧ ell.winding ⟨6, 12⟩ = 0 := by decide +kernel
+example : ((3/5 : Rat)) ^ 2 + (4/5 : Rat) ^ 2 ≤ 1 ∧ (ell.inner * (⟨3/5, 4/5⟩ : Point Rat)).x = 6 := by decide +kernel
+
+-- the global square-root law (`ellipse_area_eq`) and the Euclidean `hypot` (`rect_perimeter_eq_outline_arclen`,
+-- `triangle_perimeter_eq_outline_arclen`) hold for ℝ with Mathlib's functions
+example : letI := realScalar; ∀ x : ℝ, 0 ≤ x → SqrtExact x := by
+  intro x hx
+  exact ⟨Real.sqrt_nonneg x, Real.mul_self_sqrt hx⟩
+example : @HypotLaw ℝ _ _ realScalar := by
+  intro x y
+  refine ⟨Real.sqrt_nonneg _, ?_⟩
+  show Real.sqrt (x * x + y * y) ^ 2 = _
+  rw [Real.sq_sqrt (add_nonneg (mul_self_nonneg x) (mul_self_nonneg y))]; ring
+
+example : @LawfulScalar ℝ _ _ _ _ realScalar ∧ @LawfulReal realScalar ∧ @LawfulRealAngle realScalar :=
+  ⟨realScalar_lawful, realScalar_lawfulReal, realScalar_lawfulRealAngle⟩
+
+/-- `atan2 ≡ 0` on `Rat`: the angular test passes for a sweep of 1, the radial part decides -/
+def cseg : CircleSegment Rat := ⟨⟨0, 0⟩, 2, 1, 0, 1⟩
+example : cseg.winding ⟨3/2, 0⟩ = 1 ∧ cseg.winding ⟨1/2, 0⟩ = 0 ∧ cseg.winding ⟨2, 0⟩ = 0 ∧
+    (0 : Rat) ≤ cseg.inner_radius ∧ (0 : Rat) ≤ cseg.outer_radius ∧ cseg.bounding_box = ⟨-2, -2, 2, 2⟩ := by decide +kernel
+
+/-- a line -/
+example : pathBoundingBox (⟨⟨3, 0⟩, ⟨1, 2⟩⟩ : Line Rat).path_elements = some ⟨1, 0, 3, 2⟩ := by decide +kernel
+
+end C11Examples
 end Kurbo
